@@ -210,7 +210,10 @@ func (d *Driver) handleReadCommands(devName string, p protocolMap, reqs []dsMode
 	ctx, cancel := context.WithTimeout(context.Background(), sendTimeout)
 	defer cancel()
 
-	var responses = make([]*dsModels.CommandValue, len(reqs))
+	// Map every request to its LLRP message before sending anything,
+	// so a command with an unknown resource is rejected as a whole.
+	var llrpReqs = make([]llrp.Outgoing, len(reqs))
+	var llrpResps = make([]llrp.Incoming, len(reqs))
 	for i := range reqs {
 		var llrpReq llrp.Outgoing
 		var llrpResp llrp.Incoming
@@ -232,11 +235,16 @@ func (d *Driver) handleReadCommands(devName string, p protocolMap, reqs []dsMode
 			llrpResp = &llrp.GetAccessSpecsResponse{}
 		}
 
-		if err := dev.TrySend(ctx, llrpReq, llrpResp); err != nil {
+		llrpReqs[i], llrpResps[i] = llrpReq, llrpResp
+	}
+
+	var responses = make([]*dsModels.CommandValue, len(reqs))
+	for i := range reqs {
+		if err := dev.TrySend(ctx, llrpReqs[i], llrpResps[i]); err != nil {
 			return nil, err
 		}
 
-		cmdValue, err := dsModels.NewCommandValueWithOrigin(reqs[i].DeviceResourceName, reqs[i].Type, llrpResp, time.Now().UnixNano())
+		cmdValue, err := dsModels.NewCommandValueWithOrigin(reqs[i].DeviceResourceName, reqs[i].Type, llrpResps[i], time.Now().UnixNano())
 		if err != nil {
 			return nil, fmt.Errorf("failed to create new command value with origin: %w", err)
 		}
